@@ -52,6 +52,7 @@ def run(ck: Check, only=None):
                     impl.append(line)
                 if idx == 4000:
                     ck.sample({"atom": atom, "data": data.hex(), "impl": line})
+    reload_same_object(ck)
     model = run_model(cases, shards=16)
     from coqlit import xcheck
     xcheck(ck, cases, model)
@@ -62,3 +63,41 @@ def run(ck: Check, only=None):
         "CPython's utf-8/surrogateescape decode + str.splitlines and the re module are modelled "
         "(byte-level PyLines.v; hand-readable scanners for each regular expression) and validated "
         "by this exhaustive comparison, not verified"], extra={"exhaustive": True})
+
+
+def reload_same_object(ck):
+    """a testcase object that loads a second file must behave like a fresh object (load() resets it)"""
+    import lithium.testcases as tcs
+    from splitx import MEM, make
+    files = [b"// h DDBEGIN\none\ntwo;\n// DDEND f\ntrailer\n", b"one\ntwo\nthree\n", b"<a b c d>", b"x = 'ab' + \"c\";\n",
+             b'<div id="k" class="c d" lang=en hidden>hello <i>w</i></div>\n', b"", b"DDBEGIN\r\nq\r\nDDEND", b"a;b;{c}\n",
+             b"p = 1;\nq = 2;\n"]
+    for atom in SPLITTERS:
+        for a in files:
+            for b in files:
+                fresh_line, fresh_t, fresh_out = impl_load(atom, b)
+                t = make(atom)
+                MEM.files["/mem/a.txt"], MEM.files["/mem/b.txt"] = a, b
+                tcs.open = MEM.open
+                try:
+                    try:
+                        t.load("/mem/a.txt")
+                        len(t)
+                    except Exception:  # pylint: disable=broad-except
+                        pass
+                    try:
+                        t.load("/mem/b.txt")
+                        got = (t.before, list(t.parts), list(t.reducible), t.after)
+                        t.dump()
+                        out = MEM.files["/mem/b.txt"]
+                    except Exception as e:  # pylint: disable=broad-except
+                        got, out = "err " + type(e).__name__, None
+                finally:
+                    del tcs.open
+                ck.count("reload")
+                ck.nontrivial(("reload", atom, a, b))
+                want = None if fresh_t is None else (fresh_t.before, list(fresh_t.parts), list(fresh_t.reducible), fresh_t.after)
+                if (fresh_t is None) != isinstance(got, str) or (fresh_t is not None and (got != want or out != b)):
+                    ck.violation(f"[{atom}] a testcase object that had loaded {a!r} loads {b!r} differently from a fresh "
+                                 f"object: {got!r} (dump {out!r}) vs {want!r}",
+                                 {"atom": atom, "first": a.hex(), "second": b.hex()})
